@@ -40,6 +40,9 @@ def run(ctx):
     # histories of 30 steps over 3 users / 4 passwords / 3 parameter sets, each against one real directory
     storefam.histories(ctx, 400 if not thorough else 6000)
     storefam.short_histories(ctx)
+    # a failed add must not create the user (the default set loads but cannot hash)
+    import clifam
+    ctx.coverage["unhashable_default_runs"] = clifam.unhashable_default_leg(ctx, "C01")
     # histories with failed operations caused by I/O errors: a failed add/update must not change what
     # authenticates, exists or is listed (one real run per failing system call of the write protocol)
     drv = fsfam.Driver(ctx)
